@@ -53,7 +53,11 @@ static void roy_gas(Draw &d, PV &p, bool sweep, double sp, const std::vector<std
   }
 }
 
-static void box(Draw &d, long double *pt, int nsp, bool tr) { for (int i = 0; i < nsp; i++) { long double v = d.U(0.05L, 2.0L); pt[i] = d.coin(0.5) ? -v : v; } if (tr) pt[nsp] = d.U(0.01L, 3.0L); }
+// points: mostly a box of a few wavelengths; one coordinate in twelve is exactly 0, one in ten lies far out (|x| up to 50, tiny |x| down to 1e-4),
+// the time is negative in 15% and exactly 0 in 8% of the cases (every draw consumes the same entropy)
+static void box(Draw &d, long double *pt, int nsp, bool tr) {
+  for (int i = 0; i < nsp; i++) { long double v = d.U(0.05L, 2.0L); bool neg = d.coin(0.5); bool zero = d.coin(0.08); bool far = d.coin(0.1); long double w = d.logU(1e-4L, 50.0L); if (far) v = w; if (zero) v = 0; pt[i] = neg ? -v : v; }
+  if (tr) { long double v = d.U(0.01L, 3.0L); bool neg = d.coin(0.15); bool zero = d.coin(0.08); bool far = d.coin(0.08); long double w = d.logU(1e-4L, 40.0L); if (far) v = w; if (zero) v = 0; pt[nsp] = neg ? -v : v; } }
 
 // ------------------------------------------------------------------ library entry points
 #define A1 (a[0])
@@ -207,7 +211,8 @@ static std::vector<Spec> build() {
       p["gamma"] = d.U(1.05L, 3.0L); p["R"] = pband(d); p["beta"] = d.U(0.2L, 1.5L); p["mu_r"] = pband(d) * sweepf(d, sweep, 0.3); p["T_r"] = d.U(1.0L, 5.0L);
       p["kappa_r"] = band(d) * sweepf(d, sweep, 0.3); p["lambda_r"] = band(d) * sweepf(d, sweep, 0.3);
       for (const char *L : {"Lx", "Ly", "Lz"}) { long double l = d.logU(0.5L, 30.0L); p[L] = d.coin(0.3) ? -l : l; } };
-    s.genpt = [](Draw &d, long double *pt, const PV &) { box(d, pt, 3, true); };
+    // rho and T stay positive because |g_0 + f_0 t| <= 0.9 for t in [0, 3]: the time is kept in that window (positions are unrestricted)
+    s.genpt = [](Draw &d, long double *pt, const PV &) { box(d, pt, 3, false); long double t = d.U(0.01L, 3.0L); pt[3] = d.coin(0.08) ? 0.0L : t; };
     const char *sl[5] = {"source_rho", "source_rho_u", "source_rho_v", "source_rho_w", "source_rho_e"};
     for (int eq = 0; eq < 5; eq++) { Ev e; e.kind = 0; e.label = sl[eq]; e.ref = [eq](const PM &p, const Q *x) { return NS4::ref(p, x, eq); };
       switch (eq) {
